@@ -225,6 +225,7 @@ type NodeSpec struct {
 	Labels   map[string]string
 	Taints   []corev1.Taint
 	Startup  []corev1.Taint
+	NodeOnly []corev1.Taint // taints present on the Node object only (ephemeral taints kubelet / cloud controllers add)
 	NotReady bool
 	Created  time.Time
 	TGP      *time.Duration
@@ -342,6 +343,7 @@ func (w *World) BuildNode(s NodeSpec) (*v1.NodeClaim, *corev1.Node) {
 		nl := copyMap(labels)
 		nl[corev1.LabelHostname] = s.Name
 		taints := append([]corev1.Taint{}, s.Taints...)
+		taints = append(taints, s.NodeOnly...)
 		if s.Pool != "" {
 			switch s.Stage {
 			case "unregistered":
